@@ -25,7 +25,7 @@ ASSUMPTIONS = [
     'number of IMF columns enumerated concretely (flat index arithmetic stays linear); number of samples and of bins symbolic',
     'bin edges strictly increasing (precondition)',
 ]
-NOT_COVERED = ['agreement of dense / sparse / 1-D marginal totals (double-sum exchange needs induction): bounded stand-in only',
+NOT_COVERED = ['agreement of dense / sparse / 1-D marginal totals: derived from the two contracts by the lemmas of lemmas() (inductions over the spec sum, M <= 3); that scipy.sparse sums duplicate triples and that its dense form equals its sparse form stays the assumed scipy contract (bounded stand-in compares both)',
                'log-scale bin construction (np.log / np.exp are uninterpreted): bounded stand-in only']
 
 T = z3.Int('T')
@@ -196,6 +196,94 @@ def units(tier):
     return U
 
 
+# ----------------------------------------------------------------------------- "consequently": the totals agree (lemmas over the contracts)
+
+def lemmas(tier):
+    """The last sentence of the property - dense / sparse / 1-D marginal agree with one another and with the in-range total - as a consequence
+    of the two contracts above (and of the assumed scipy contract dense = sparse = sum of the duplicate triples), by inductions over the
+    recursive definition of the spec sum (sumR(a, 0) = 0, sumR(a, k+1) = sumR(a, k) + a[k]):
+
+      D(t, j) = digitised bin number of sample (t, j), V(t, j) = its amplitude (squared in energy mode); M IMF columns (enumerated);
+      dense(b, t) = sum_j [D(t, j) = b + 1] V(t, j)            (hilberthuang contract: every in-range sample exactly once, at (bin, t))
+      one(b, j)   = sumR_t [D(t, j) = b + 1] V(t, j)            (hilberthuang_1d contract)
+
+      A  per bin:    sum_j one(b, j)            = sumR_t dense(b, t)                  (finite exchange, induction over t)
+      B  per sample: sumR_b<NB [d0 = b + 1] v   = v if 1 <= d0 <= NB else 0          (each sample in exactly one bin or in none)
+      A' per column: sumR_b<NB dense(b, t)      = sum_j (V(t, j) if in range else 0)  (B + finite exchange, induction over b)
+      C  Fubini:     sumR_b sumR_t F(b, t)      = sumR_t sumR_b F(b, t)               (two nested inductions, F uninterpreted)
+      E  congruence: pointwise equal vectors have equal sums                          (used to lift A over b and A' over t)
+    Every lemma is (hypotheses, goal) discharged like an obligation; an induction is its base and its step."""
+    AX = npshim.sum_axioms()[:2]
+    S = npshim.SUMR
+    D = z3.Function('lemD', I, I, I)
+    V = z3.Function('lemV', I, I, R)
+    F = z3.Function('lemF', I, I, R)
+    n, m, d, NB, d0 = z3.Ints('lem_n lem_m lem_d lem_NB lem_d0')
+    t, b = z3.Ints('lem_t lem_b')
+    v = z3.Real('lem_v')
+    zero = z3.RealVal(0)
+    L = []
+
+    def add(acc):
+        r = acc[0]
+        for x in acc[1:]:
+            r = r + x
+        return r
+
+    def induction(name, claim, extra=()):
+        L.append((name + ':base', list(AX) + list(extra), claim(z3.IntVal(0))))
+        L.append((name + ':step', list(AX) + list(extra) + [n >= 0, claim(n)], claim(n + 1)))
+
+    for M in (1, 2, 3):
+        def cell(tt, j, dd):
+            return z3.If(D(tt, z3.IntVal(j)) == dd, V(tt, z3.IntVal(j)), zero)
+
+        def dense(bb, tt):
+            return add([cell(tt, j, bb + 1) for j in range(M)])
+        # A: for the bin with number d (= b + 1): the row sum of the dense spectrum is the sum of the M marginal cells
+        row = z3.Lambda([t], dense(d - 1, t))
+        cols = [z3.Lambda([t], cell(t, j, d)) for j in range(M)]
+        induction('totals[M=%d]:A:row-sum-of-dense-equals-sum-of-marginal-cells' % M, lambda k: S(row, k) == add([S(cj, k) for cj in cols]))
+        # A': for the time column t: the column sum of the dense spectrum over the first k bins is the sum over j of the per-sample bin sums
+        col = z3.Lambda([b], dense(b, t))
+        per = [z3.Lambda([b], cell(t, j, b + 1)) for j in range(M)]
+        induction("totals[M=%d]:A':column-sum-of-dense-equals-sum-of-per-sample-bin-sums" % M, lambda k: S(col, k) == add([S(pj, k) for pj in per]))
+    # B: one sample with digitised value d0 and value v, over the first k bins
+    ind = z3.Lambda([b], z3.If(d0 == b + 1, v, zero))
+    induction('totals:B:a-sample-is-counted-in-exactly-its-bin-or-in-none', lambda k: S(ind, k) == z3.If(z3.And(1 <= d0, d0 <= k), v, zero))
+    # C: Fubini for a [NB x n] table F
+    def rowsum(bb, k):
+        return S(z3.Lambda([t], F(bb, t)), k)
+
+    def colsum(tt, k):
+        return S(z3.Lambda([b], F(b, tt)), k)
+
+    def G(k, mm):
+        return S(z3.Lambda([b], rowsum(b, k)), mm)
+
+    def H(k, mm):
+        return S(z3.Lambda([t], colsum(t, mm)), k)
+    # C0: all row sums over zero columns are zero, hence their total
+    L.append(('totals:C0:total-over-no-columns-is-zero:base', list(AX), G(z3.IntVal(0), z3.IntVal(0)) == 0))
+    L.append(('totals:C0:total-over-no-columns-is-zero:step', list(AX) + [m >= 0, G(z3.IntVal(0), m) == 0], G(z3.IntVal(0), m + 1) == 0))
+    # C1: one more column adds that column's sum (induction over the bins m, the column index n fixed)
+    c1 = lambda mm: G(n + 1, mm) == G(n, mm) + colsum(n, mm)
+    L.append(('totals:C1:one-more-column-adds-its-column-sum:base', list(AX) + [n >= 0], c1(z3.IntVal(0))))
+    L.append(('totals:C1:one-more-column-adds-its-column-sum:step', list(AX) + [n >= 0, m >= 0, c1(m)], c1(m + 1)))
+    # C: induction over the columns, using C0 and C1 at m = NB
+    L.append(('totals:C:sum-of-row-sums-equals-sum-of-column-sums:base', list(AX) + [NB >= 0, G(z3.IntVal(0), NB) == 0], G(z3.IntVal(0), NB) == H(z3.IntVal(0), NB)))
+    L.append(('totals:C:sum-of-row-sums-equals-sum-of-column-sums:step', list(AX) + [NB >= 0, n >= 0, G(n, NB) == H(n, NB), G(n + 1, NB) == G(n, NB) + colsum(n, NB)],
+              G(n + 1, NB) == H(n + 1, NB)))
+    # E: congruence - vectors that agree on [0, k) have the same sum
+    P = z3.Const('lemP', npshim.AR)
+    Q = z3.Const('lemQ', npshim.AR)
+    i = z3.Int('lem_i')
+    agree = lambda k: z3.ForAll([i], z3.Implies(z3.And(0 <= i, i < k), P[i] == Q[i]), patterns=[P[i]])
+    L.append(('totals:E:pointwise-equal-vectors-have-equal-sums:base', list(AX), S(P, z3.IntVal(0)) == S(Q, z3.IntVal(0))))
+    L.append(('totals:E:pointwise-equal-vectors-have-equal-sums:step', list(AX) + [n >= 0, z3.Implies(agree(n), S(P, n) == S(Q, n)), agree(n + 1)], S(P, n + 1) == S(Q, n + 1)))
+    return L
+
+
 def model_witness(unit_name, model):
     if not unit_name.startswith('hilberthuang'):
         return None
@@ -272,9 +360,21 @@ def replay(w):
     tol = 1e-12 if not w.get('dtype_a') else 2e-6          # (single-precision amplitudes are squared in single precision)
     lay = w.get('layout', 'C')
     msgs = []
+    # a script holds ONE frequency and ONE amplitude array and passes them to every routine (`same_arrays`): an earlier call must not have
+    # changed what a later call sees; `pre_edges`: a first marginal spectrum over a NARROWER band is computed before the ones judged
+    same = bool(w.get('same_arrays'))
+    F0, A0 = _layout(f, lay), _layout(a, lay)
+    Fk, Ak = F0.copy(), A0.copy()
+    _F = (lambda: F0) if same else (lambda: _layout(f, lay))
+    _A = (lambda: A0) if same else (lambda: _layout(a, lay))
+    if w.get('pre_edges') is not None:
+        try:
+            ES.hilberthuang_1d(_F(), _A(), np.array(w['pre_edges'], float), mode=w['mode'])
+        except Exception as ex:
+            msgs.append('hilberthuang_1d raised %s: %s' % (type(ex).__name__, ex))
     try:
-        got_d = ES.hilberthuang(_layout(f, lay), _layout(a, lay), e, mode=w['mode'])
-        got_s = ES.hilberthuang(_layout(f, lay), _layout(a, lay), e, mode=w['mode'], return_sparse=True).toarray()
+        got_d = ES.hilberthuang(_F(), _A(), e, mode=w['mode'])
+        got_s = ES.hilberthuang(_F(), _A(), e, mode=w['mode'], return_sparse=True).toarray()
         if got_d.shape != dense.shape or not np.allclose(got_d, dense, rtol=tol, atol=tol):
             msgs.append('dense spectrum %s differs from per-sample histogram %s' % (np.round(got_d, 6).tolist(), np.round(dense, 6).tolist()))
         if got_s.shape != dense.shape or not np.allclose(got_s, dense, rtol=tol, atol=tol):
@@ -282,11 +382,17 @@ def replay(w):
     except Exception as ex:
         msgs.append('hilberthuang raised %s: %s' % (type(ex).__name__, ex))
     try:
-        got_1 = ES.hilberthuang_1d(_layout(f, lay), _layout(a, lay), e, mode=w['mode'])
+        got_1 = ES.hilberthuang_1d(_F(), _A(), e, mode=w['mode'])
         if got_1.shape != one.shape or not np.allclose(got_1, one, rtol=tol, atol=tol):
             msgs.append('1-D marginal %s differs from per-sample histogram %s' % (np.round(got_1, 6).tolist(), np.round(one, 6).tolist()))
+        if same:          # ... and once more, after the 1-D routine has seen the arrays
+            got_d2 = ES.hilberthuang(F0, A0, e, mode=w['mode'])
+            if got_d2.shape != dense.shape or not np.allclose(got_d2, dense, rtol=tol, atol=tol):
+                msgs.append('dense spectrum computed AFTER the 1-D marginal on the same arrays differs from the per-sample histogram')
     except Exception as ex:
         msgs.append('hilberthuang_1d raised %s: %s' % (type(ex).__name__, ex))
+    if same and not (np.array_equal(F0, Fk, equal_nan=True) and np.array_equal(A0, Ak, equal_nan=True)):
+        msgs.append("the caller's frequency / amplitude arrays were modified (%d entries differ)" % int((~((F0 == Fk) | (np.isnan(F0) & np.isnan(Fk)))).sum() + (~((A0 == Ak) | (np.isnan(A0) & np.isnan(Ak)))).sum()))
     if msgs:
         return True, '; '.join(msgs)[:700] + ' (infr=%s edges=%s mode=%s)' % (f.tolist(), e.tolist(), w['mode'])
     return False, 'dense, sparse and 1-D spectra equal the per-sample histogram'
@@ -356,6 +462,24 @@ def refute(tier, seed, emit):
         ok, msg = replay(w)
         if ok:
             emit.violation('each-sample-in-exactly-its-half-open-bin:%s-frequencies' % dtf, w, msg[:400])
+        if emit.full:
+            return
+    # call histories on one pair of arrays: marginal over a narrow band first, then everything over a wide band
+    emit.scope('call histories on ONE frequency / amplitude array pair (float64, float32, int64): 1-D marginal over a narrow band, then dense, sparse, 1-D and dense again over a wide band that contains samples the narrow one left out; the arrays are unchanged afterwards')
+    rh = rng(seed, 210)
+    for q in range(12 if tier == 'quick' else 120):
+        Tn, M = int(rh.randint(4, 30)), int(rh.randint(1, 4))
+        f = rh.randint(-2, 20, size=(Tn, M)).astype(float) + (0.0 if q % 2 else 0.25)
+        a = rh.randint(1, 5, size=(Tn, M)).astype(float)
+        wide = ES.define_hist_bins(0, 16, 8)[0]
+        narrow = ES.define_hist_bins(4, 8, 4)[0]
+        mode = 'energy' if q % 2 else 'amplitude'
+        emit.case(('history', q), nontrivial=True, contract='hilberthuang')
+        w = {'kind': 'hht', 'infr': f.tolist(), 'inam': a.tolist(), 'edges': wide.tolist(), 'mode': mode, 'layout': ['C', 'F', 'strided'][q % 3], 'same_arrays': True, 'pre_edges': narrow.tolist(),
+             'dtype_f': [None, None, 'float32', 'int64'][q % 4] if q % 2 else None}
+        ok, msg = replay(w)
+        if ok:
+            emit.violation('each-sample-in-exactly-its-half-open-bin:call-history-on-one-array-pair', w, msg[:400])
         if emit.full:
             return
     # bin construction
